@@ -775,25 +775,34 @@ theorem apply_sync_eq_set (samePkg : Bool) (bs : List Bound) (r : Val)
     applySync samePkg bs r = setAll bs r := by
   rw [applySync_eq_eff samePkg bs r hg hpf hu, setAll_eq_eff bs r hg hpf hu]
 
-/-- the sync macro of a same-package request without repeated `struct_pb2.Value` keys is plain
+/-- the sync macro of a same-package request without repeated `struct_pb2.Value` keys and without
+repeated keys owned by a raw protobuf message (the two cases that are extended, not assigned) is plain
 assignment in declared order UNCONDITIONALLY (any base request, overlapping keys, any values). -/
 theorem apply_sync_eq_set_unconditional (bs : List Bound) (r : Val)
-    (hv : ∀ b ∈ bs, (b.1.isValue && b.1.repeated) = false) :
+    (hv : ∀ b ∈ bs, (b.1.isValue && b.1.repeated) = false ∧ (b.1.repeated && b.1.rawOwner) = false) :
     applySync true bs r = setAll bs r := by
   unfold applySync setAll
-  have h2 : ∀ (l : List Bound) (r : Val), l.foldl (syncLoop2 true) r = r := by
-    intro l r; induction l generalizing r with
+  have h2 : ∀ (l : List Bound) (r : Val), (∀ b ∈ l, (b.1.repeated && b.1.rawOwner) = false) →
+      l.foldl (syncLoop2 true) r = r := by
+    intro l r hl; induction l generalizing r with
     | nil => rfl
-    | cons b l ih => simp only [List.foldl_cons]; rw [show syncLoop2 true r b = r by simp [syncLoop2]]; exact ih r
-  rw [h2]
+    | cons b l ih =>
+      simp only [List.foldl_cons]
+      rw [show syncLoop2 true r b = r by simp [syncLoop2, hl b (by simp)]]
+      exact ih r (fun c hc => hl c (by simp [hc]))
+  rw [h2 _ _ (fun b hb => (hv b hb).2)]
   induction bs generalizing r with
   | nil => rfl
   | cons b bs ih =>
     simp only [List.foldl_cons]
     have : syncLoop1 true r b = refStep r b := by
       have hb := hv b (by simp)
+      have hc : (!b.1.repeated || (true && !b.1.rawOwner)) = true := by
+        have := hb.2
+        cases h1 : b.1.repeated <;> cases h2 : b.1.rawOwner <;> simp [h1, h2] at this ⊢
       unfold syncLoop1 refStep
-      cases b.2 <;> simp [hb]
+      simp only [hc, if_true]
+      cases b.2 <;> simp [hb.1]
     rw [this]
     exact ih _ (fun c hc => hv c (by simp [hc]))
 
@@ -866,9 +875,7 @@ theorem rawAny_noargs (asy : Bool) (bs : List Bound) (h : ∀ b ∈ bs, b.2 = no
 
 theorem rawAssignFails_async_sync (b : Bound) (h : rawAssignFails false b = false) :
     rawAssignFails true b = false := by
-  unfold rawAssignFails at h ⊢
-  cases hg : given b.2 <;> cases hr : b.1.rawOwner <;> cases hp : b.1.repeated <;> cases hv : b.1.isValue <;>
-    cases hm : b.1.isMsg <;> simp [hg, hr, hp, hv, hm] at h ⊢
+  simpa [rawAssignFails] using h
 
 theorem rawAny_async_sync (bs : List Bound) (h : bs.any (rawAssignFails false) = false) :
     bs.any (rawAssignFails true) = false := by
@@ -895,7 +902,7 @@ theorem value_error_iff_mixed (samePkg asy : Bool) (req : ReqArg) (bs : List Bou
 
 /-- **AttributeError is raised exactly when** the call is not mixed, the request is of the API's own
 package, and some GIVEN key ends in a field owned by a raw protobuf message that protobuf refuses to
-assign (`rawAssignFails`: repeated/map for the sync client, a singular message for both). -/
+assign (`rawAssignFails`: a singular message field, in both clients; repeated/map fields are extended / updated since `fix:` 9d33fc0). -/
 theorem attribute_error_iff (samePkg asy : Bool) (req : ReqArg) (bs : List Bound) :
     call samePkg asy req bs = .error .attributeError ↔
       ((req.isGiven && hasFlattened bs) = false ∧ samePkg = true ∧ bs.any (rawAssignFails asy) = true) := by
@@ -917,7 +924,7 @@ theorem attribute_error_iff (samePkg asy : Bool) (req : ReqArg) (bs : List Bound
 /-- **kwargs call ≡ request call** (same package, both clients): calling with flattened arguments
 sends exactly what is sent when the caller builds the request by setting those fields and passes
 it as `request` (object or dict) — provided no given key runs into protobuf's assignment rules for
-raw sub-messages (`rawAssignFails`; FORCED, see `raw_owner_repeated_counterexample`). -/
+raw sub-messages (`rawAssignFails`; FORCED, see `raw_owner_message_counterexample`). -/
 theorem kwargs_equiv_request (asy : Bool) (bs : List Bound)
     (hg : ∀ b ∈ bs, good b = true) (hpf : PrefixFree bs) (hraw : bs.any (rawAssignFails asy) = false) :
     call true asy .none bs = .ok (setAll bs .mnil) ∧
@@ -953,7 +960,7 @@ theorem kwargs_equiv_request_cross (asy : Bool) (bs : List Bound)
 
 /-- **Sync and asyncio clients behave identically**: same request or same exception, for every form
 of `request` and every argument list within the hypotheses (the raw-assignment hypothesis is stated
-for the sync client: whatever the asyncio client refuses, the sync client refuses too). -/
+for the sync client; since `fix:` 9d33fc0 the two clients refuse exactly the same keys). -/
 theorem sync_async_agree (samePkg : Bool) (req : ReqArg) (bs : List Bound)
     (hg : ∀ b ∈ bs, good b = true) (hpf : PrefixFree bs)
     (hc : samePkg = false → ∀ b ∈ bs, ctorOk b = true)
@@ -987,9 +994,8 @@ theorem sync_async_agree (samePkg : Bool) (req : ReqArg) (bs : List Bound)
         simp [call, hf, hs, ha, applyAsyncSame_noargs bs r (hasFlattened_false hf),
               applySync_noargs true bs r (hasFlattened_false hf)]
 
-/-- without ANY hypothesis on the keys: whenever the asyncio client of a same-package request gets
-through protobuf's assignment rules… the sync client may still not (`raw_owner_repeated_counterexample`);
-the converse holds: what the sync client may assign, the asyncio client may too. -/
+/-- what the sync client may assign to a raw sub-message, the asyncio client may too (since `fix:`
+9d33fc0 also conversely: `rawAssignFails` no longer depends on the client). -/
 theorem async_raw_ok_of_sync (bs : List Bound) (h : bs.any (rawAssignFails false) = false) :
     bs.any (rawAssignFails true) = false := rawAny_async_sync bs h
 
@@ -1181,13 +1187,15 @@ def sMaskPaths : Slot := ⟨[6, 1], true, false, false, none, true, false⟩
 def sOpError : Slot := ⟨[7, 4], false, false, false, none, true, true⟩
 def sStatusCode : Slot := ⟨[8, 1], false, false, false, none, true, false⟩
 
-/-- **a repeated field of a raw sub-message** (`update_mask.paths`, `status.details`, `policy.bindings`):
-the sync client executes `request.mask.paths = paths` — protobuf refuses (AttributeError, nothing is
-sent) — the asyncio client executes `request.mask.paths.extend(paths)` and sends the request. -/
-theorem raw_owner_repeated_counterexample :
-    call true false .none [(sMaskPaths, some (.list ["a", "b"]))] = .error .attributeError ∧
+/-- **regression for `fix:` 9d33fc0 — a repeated field of a raw sub-message** (`update_mask.paths`,
+`status.details`, `policy.bindings`): the sync client used to execute `request.mask.paths = paths`
+(refused by protobuf); both clients now extend and send the same request. -/
+theorem raw_owner_repeated_regression :
+    call true false .none [(sMaskPaths, some (.list ["a", "b"]))] =
+      .ok (.mcons 6 (.mcons 1 (.list ["a", "b"]) .mnil) .mnil) ∧
     call true true .none [(sMaskPaths, some (.list ["a", "b"]))] =
-      .ok (.mcons 6 (.mcons 1 (.list ["a", "b"]) .mnil) .mnil) := by decide
+      .ok (.mcons 6 (.mcons 1 (.list ["a", "b"]) .mnil) .mnil) ∧
+    call true false .none [(sMaskPaths, some (.list []))] = call true true .none [(sMaskPaths, some (.list []))] := by decide
 
 /-- **a message field of a raw sub-message** (`op.error`): `request.op.error = error` is refused by
 protobuf in BOTH clients; the request call with the same field set goes through. -/
@@ -1210,11 +1218,9 @@ example : (match fieldsMappingP exSchema false exReq [["parent"], ["tags"]] with
     (["self", "requests", "retry", "timeout", "metadata"],
      ["self", "request", "parent", "tags", "retry", "timeout", "metadata"]) := by decide
 
-/-- **two repeated keys of a dependency-package request** (`FileDescriptorProto`: "dependency,public_dependency"):
-the sync macro's second pass emits the second `if` one column too far to the right — client.py does not compile. -/
-theorem cross_two_repeated_counterexample :
-    emitIndentOk false [⟨["dependency"], [], ⟨"google.protobuf.FileDescriptorProto", false, ⟨"dependency", 3, .prim, true, false, false⟩⟩⟩,
-                        ⟨["public_dependency"], [], ⟨"google.protobuf.FileDescriptorProto", false, ⟨"public_dependency", 10, .prim, true, false, false⟩⟩⟩] = false ∧
-    emitIndentOk false [⟨["dependency"], [], ⟨"google.protobuf.FileDescriptorProto", false, ⟨"dependency", 3, .prim, true, false, false⟩⟩⟩] = true := by decide
+/-- **regression for `fix:` 9d33fc0 — two repeated keys of a dependency-package request**
+(`FileDescriptorProto`: "dependency,public_dependency"): the second pass of the sync macro no longer
+shifts the second `if` (client.py used to raise IndentationError). -/
+theorem cross_two_repeated_regression (samePkg : Bool) (es : List Entry) : emitIndentOk samePkg es = true := rfl
 
 end GapicModel.Props.C05
